@@ -104,7 +104,7 @@ func Props(c *Ctx) map[string]*Prop {
 		Rules:       []Rule{ruleGT1(), ruleCC11("parser"), ruleEF1(), ruleEF2(), ruleRC2("parser"), ruleCC2("parser"), ruleCC7(), ruleCC8("parser"), ruleEF8(), ruleSRC2()}})
 	add(&Prop{ID: "C03",
 		Explanation: "Decides only that every syntax error value is located: built with the caller's name and a recorded, non-zero position expression, that Lex records the position of every token it delivers, and that the lexer's error function discards a reported syntax error only when another error is already recorded (ER1). Rejection of ill-formed programs itself (language recognition) is not decidable structurally.",
-		Rules:       []Rule{ruleGT1(), ruleNL1(), ruleNL2(), ruleSIB1(), ruleBQ1(), ruleGR7(), ruleEF6(), ruleER1(), ruleHD7(), ruleLX("HD5"), ruleTK("TK1", "TK2"), ruleEF1()}})
+		Rules:       []Rule{ruleQB1(), ruleGT1(), ruleNL1(), ruleNL2(), ruleSIB1(), ruleBQ1(), ruleGR7(), ruleEF6(), ruleER1(), ruleHD7(), ruleLX("HD5"), ruleTK("TK1", "TK2"), ruleEF1()}})
 	add(&Prop{ID: "C18",
 		Explanation: "Decides purity, determinism and error reporting of the printer structurally: its only AST writes are the hide/undo idiom and every hide is undone by a deferred closure on all paths (PU1); nothing reachable from Fprint is a source of nondeterminism (PU2); all output goes through one buffered writer whose sticky error is returned through print, Config.Fprint and Fprint (EF5); here-document frames are balanced (PU8); the positions it consults are counted in characters (BR1, TB5) and nothing reachable from Fprint can panic (PF1). That the output is a fix-point of print∘parse is a value-level property and is not decided.",
 		Assumptions: []string{"bufio.Writer's sticky-error contract"},
@@ -133,7 +133,7 @@ func Props(c *Ctx) map[string]*Prop {
 				}), rulePU10(), ruleQU3(), ruleSM1()}})
 	add(&Prop{ID: "C02",
 		Explanation: "Decides only side conditions of 'every grammatical program is accepted': the compiled tables and actions are goyacc's output for the checked-in grammar (GR1), which is conflict-free (GR2); every nonterminal carries the dynamic types its consumers assert and the lists they index are non-empty (GR3); lexer tables and grammar agree on the terminal alphabet and every operator is scanned under its own spelling (GR6, TB9a); a reserved word is translated at every dispatch a raw word can reach (RC5); every closer pushed on the nesting stack is matched somewhere (RC6). That the context-driven lexer hands the right token class in every state, and that the grammar is POSIX's, are language-level claims and are not decided.",
-		Rules:       []Rule{ruleUR1(), ruleSIB1(), ruleHD9(), ruleBQ1(), ruleCM3(), ruleGR7(), ruleGR1("parser"), ruleGR2("parser"), ruleGR3(), ruleGR6(), ruleTB9a("parser", "parser.(*lexer).scanOp", 8), ruleRC5(), ruleRC6(), ruleRC7(), ruleTK("TK1", "TK2"), ruleHD()}})
+		Rules:       []Rule{ruleQB1(), ruleUR1(), ruleSIB1(), ruleHD9(), ruleBQ1(), ruleCM3(), ruleGR7(), ruleGR1("parser"), ruleGR2("parser"), ruleGR3(), ruleGR6(), ruleTB9a("parser", "parser.(*lexer).scanOp", 8), ruleRC5(), ruleRC6(), ruleRC7(), ruleTK("TK1", "TK2"), ruleHD()}})
 	add(&Prop{ID: "C04",
 		Explanation: "Decides that columns are counted in characters at every site that manufactures a position (taint from byte lengths/offsets to NewPos, shift and the cursor, BR1) and that End() adds the width of the token actually stored in the field (TB5). That each fixed offset equals the number of characters read since the documented character, containment and ordering of positions are value-level and not decided.",
 		Assumptions: []string{"operator and reserved-word spellings are ASCII (checked against the tables)", "Comment.End is excluded by the property's text"},
@@ -176,7 +176,7 @@ func Props(c *Ctx) map[string]*Prop {
 				}), ruleBR4(), ruleQU3()}})
 	add(&Prop{ID: "C15",
 		Explanation: "Decides structural necessary conditions of 'quoted text is literal': quoted parts are joined as quoted and expanded in Quote mode, tilde only on unquoted literals (QU1); single quotes interpret nothing (QU2); the double-quote escape set is POSIX's (TB7); the three pattern-special character sets agree so quoted characters are escaped in Pattern mode, and any pre-test that lets a quoted segment skip the escape searches for the whole set (TB4); the pattern package keeps no state between calls, so what a quoted text matches cannot depend on earlier patterns (NG1); quoted segments are never split (SP1). The end-to-end identity is value-level and not decided.",
-		Rules:       []Rule{ruleQU1c(), ruleQU4(), ruleW1(), ruleESC3(), ruleESC2(), ruleQU(), ruleTB7(), ruleTB4(), ruleSP(), rulePF2(), ruleNG1("pattern", "interp"), ruleRD1(), ruleSRC2(), ruleESC1(), ruleGL()}})
+		Rules:       []Rule{ruleQB1(), ruleQU1c(), ruleQU4(), ruleW1(), ruleESC3(), ruleESC2(), ruleQU(), ruleTB7(), ruleTB4(), ruleSP(), rulePF2(), ruleNG1("pattern", "interp"), ruleRD1(), ruleSRC2(), ruleESC1(), ruleGL()}})
 	add(&Prop{ID: "C17",
 		Explanation: "Decides termination and position side conditions of alias substitution: an alias is pushed only after a membership test on the active stack (RC3), only a single unquoted literal can be substituted, assignments are recognised first, and substitution happens only at command-name / alias-continuation positions (AL1); the 'ends in a blank' test uses the scanner's blank set (TB11 in TB7); alias-driven loops are the only non-read-driven cycles (RC2); the nested lexer of a command substitution shares the alias stack, so an alias value containing `$(` is lexed as text of the alias (NL1). Equality with textual replacement is language-level and not decided.",
 		Rules:       []Rule{ruleAL4(), ruleRC3(), ruleTB7(), ruleRC2("parser"), ruleLX("AL2", "AL3"), ruleNL1(), ruleNL2(), ruleRC8()}})
